@@ -9,7 +9,9 @@ extern crate snafu;
 use std::collections::BTreeMap;
 use std::env;
 use std::fs;
+use std::io;
 use std::io::Error as IoError;
+use std::io::Write;
 use std::path::Path;
 use std::path::PathBuf;
 use std::process;
@@ -101,7 +103,9 @@ fn main() {
                     format!("{}{}", st.msg, rendered_stacktrace)
                 },
             };
-        eprintln!("{raw_cur_rel_script_path}:{msg}");
+        // A failure to write the diagnostic (e.g. stderr is closed or full)
+        // mustn't turn the reported error into a panic.
+        let _ = writeln!(io::stderr(), "{raw_cur_rel_script_path}:{msg}");
         process::exit(103);
     }
 }
